@@ -9,6 +9,7 @@ Property theorems only. They are about the model of `Taxonomy.__init__`, `is_lit
 every history of calls on one instance. The specification is `Spec.Taxo.translate` / `rawCount`.
 -/
 import Paroxy.Spec.Taxonomy
+import Paroxy.Spec.TaxonomyDefault
 import Paroxy.Proofs.Taxonomy
 namespace Paroxy.Props.C09
 open Paroxy Paroxy.Taxo Paroxy.Spec.Taxo Paroxy.TaxoProofs
@@ -60,6 +61,18 @@ theorem C09_bag {σ : Type} [DecidableEq σ] (o : Oracle) (rows : List Row) (st 
     accCount (accumulate o st [] labels).2 t s = rawCount o rows labels t s := by
   have := (accumulate_ok o rows labels t s st [] h.ok).1
   simpa [accCount, dget] using this
+
+/-- **C09 (reading the table).** A taxonomy text that passes the executable check `tableOk` (every
+data line before `-- EOF` has at least two fields, no row twice, at least one row) is read without
+error into exactly the rows of its data lines — in sorted-line order — all distinct. The driver
+evaluates `tableOk` on the default table (`Gen.TaxonomyCodes`, regenerated from /repo) on every run;
+in the kernel that computation takes minutes, so it is not repeated here as a `decide`. -/
+theorem C09_table_wf (text : Str) (h : tableOk text = true) :
+    ∃ rows, parseTsv text = .ok rows ∧ rows.Perm ((rawLines text).map parseLineD) ∧ rows.Nodup ∧
+      rows ≠ [] :=
+  parseTsv_of_tableOk text h
+
+example : tableOk "T\tL\nb/x\tfoo\na/y\tbar(.*) comment\n-- EOF\nzz".toList = true := by decide
 
 /-! ### Non-vacuity: the aliasing case. Table: literal row `(t/lit, foo)` and regex row
 `(t/\1, (fo+))`; the label `foo` is both a literal key and matched by the regex, so the first call
